@@ -14,7 +14,7 @@ mods = available()
 checks = []
 na = []
 for p in PROPS:
-    if p in mods and getattr(mods[p], "CLAIMED", True):
+    if p in mods and getattr(mods[p], "CLAIMED", False):
         m = mods[p]
         checks.append({
             "property_id": p,
